@@ -380,6 +380,9 @@ impl<T: El> MapWorld<T> {
         self.st = None;
         self.ops_done += 1;
         let pre = if self.cfg.flags.c02 || self.cfg.flags.c03 { Some(self.pre_info(op)) } else { None };
+        // key identity: like std's map, no call other than the key-replacing entry methods swaps the
+        // stored key object of an element that stays in the map (observable when Eq is coarser than identity)
+        let pre_keys: Option<Vec<(u32, u64)>> = if T::TRACKED && !self.cfg.flags.cheap && keys_stay(op.k) { Some(harness(|| self.m.iter().map(|(k, _)| (k.id(), k.obj())).collect())) } else { None };
         let res = catch(|| self.do_op(op));
         let obs = match res {
             Ok(Ok(o)) => o,
@@ -388,6 +391,28 @@ impl<T: El> MapWorld<T> {
         };
         if let Some(f) = elem::ledger_fault() {
             vbail!("ledger", "{}", f);
+        }
+        if let Some(pre_keys) = pre_keys {
+            let post: BTreeMap<u32, u64> = harness(|| self.m.iter().map(|(k, _)| (k.id(), k.obj())).collect());
+            let own_may_change = match op.k {
+                OpK::EntryChain => chain::may_replace_key(op.arg),
+                OpK::RawChain => chain::may_replace_key(op.arg >> 2),
+                _ => false,
+            };
+            let mut bad = None;
+            for &(id, obj) in &pre_keys {
+                if let Some(&o2) = post.get(&id) {
+                    if o2 != obj && !(own_may_change && id == T::norm(op.key)) {
+                        bad = Some((id, obj, o2));
+                        break;
+                    }
+                }
+            }
+            harness(|| drop(post));
+            harness(|| drop(pre_keys));
+            if let Some((id, a, b)) = bad {
+                vbail!("mismatch", "{} replaced the stored key object of key {} ({} -> {}); a map keeps the key it already has", op, id, a, b);
+            }
         }
         if let Some(pre) = pre {
             self.monitors(op, &pre)?;
@@ -1518,4 +1543,10 @@ impl<T: El> crate::engine::World for MapWorld<T> {
     fn capacity(&self) -> usize {
         self.m.capacity()
     }
+}
+
+/// Calls after which every element still in the map has the key object it had before (the entry
+/// methods that replace a key are handled per chain).
+fn keys_stay(k: OpK) -> bool {
+    !matches!(k, OpK::FromIter | OpK::CloneReplace | OpK::CloneFromInto | OpK::WithCapacity | OpK::IntoIter | OpK::Clear | OpK::Drain | OpK::RawInsertWrongHash)
 }
